@@ -488,7 +488,7 @@ pub fn allow_key(e: &Env, public_key: &Bytes, registry: &Address, scheme: u32, c
 
     pairs.push_back((claim_topic, registry.clone()));
 
-    if pairs.len() >= MAX_REGISTRIES_PER_KEY {
+    if pairs.len() > MAX_REGISTRIES_PER_KEY {
         panic_with_error!(e, ClaimIssuerError::LimitExceeded)
     }
 
